@@ -503,6 +503,17 @@ class _Linalg:
             raise TracerError('norm of matrix')
         return Sym('sqrt', Sym('vdot', a, a))
 
+    def qr(self, a):
+        """numpy.linalg.qr is an EXTERNAL call: its result becomes a pair of extra parameters (Q, R) of the traced function
+        (gen_numeric sets `QR_HOOK` for the functions it traces that way); what is assumed about (Q, R) is stated as hypotheses
+        of the theorems (the QR contract), and the harness feeds numpy's actual (Q, R) to the Float twin"""
+        if QR_HOOK[0] is None:
+            raise TracerError('numpy.linalg.qr')
+        return QR_HOOK[0](a)
+
+
+QR_HOOK = [None]
+
 
 class NP:
     pi = Sym('pi')
@@ -741,6 +752,53 @@ class NP:
         if isinstance(c, (Arr, OArr)):
             raise TracerError('where on an array condition')
         return a if bool(c) else b
+
+    def sign(self, x):
+        """numpy.sign: 1, -1 or 0 (two comparisons on the symbolic value fork the run)"""
+        def f(v):
+            v = Sym.lift(v)
+            if v > 0:
+                return Sym.lift(1.0)
+            if v < 0:
+                return Sym.lift(-1.0)
+            return Sym.lift(0.0)
+        return self._el1(x, f)
+
+    def copysign(self, a, b):
+        a, b = Sym.lift(a), Sym.lift(b)
+        return abs(a) if b >= 0 else -abs(a)
+
+    def isclose(self, a, b, rtol=1e-05, atol=1e-08):
+        if isinstance(a, (Arr, OArr, list, tuple)) or isinstance(b, (Arr, OArr, list, tuple)):
+            raise TracerError('isclose on arrays')
+        a, b = Sym.lift(a), Sym.lift(b)
+        return bool(abs(a - b) <= Sym.lift(atol) + Sym.lift(rtol) * abs(b))
+
+    def negative(self, x):
+        return self._el1(x, lambda v: -v)
+
+    def reciprocal(self, x):
+        return self._el1(x, lambda v: 1 / v)
+
+    def subtract(self, a, b):
+        return a - b
+
+    def add(self, a, b):
+        return a + b
+
+    def multiply(self, a, b):
+        return a * b
+
+    def divide(self, a, b):
+        return a / b
+
+    true_divide = divide
+
+    def atleast_1d(self, x):
+        return x if isinstance(x, (Arr, OArr)) else _arr(x if isinstance(x, (list, tuple)) else [x])
+
+    def squeeze(self, a):
+        return a
 
 
 def _sum(xs):
